@@ -28,6 +28,29 @@ CHECKS = {
     'C17': dict(engine='histmc', sec='4 C17', text='All nestings of up to three tracers (recording tracer and stream_tracer) interleaved with calls returning values / references / void, throwing std and non-std exceptions, and recursive calls from side effects: the trace records each tracer received.'),
 }
 
+SCHED_TECH = ('stateless model checking of the implementation: exhaustive depth-first enumeration of all schedules (choice of the next thread to enter a critical section) of all tiny '
+              'multi-threaded programs over a fixed operation alphabet, real threads under a cooperative futex scheduler; ThreadSanitizer on every schedule; results checked against the set of '
+              'results of all program-order-respecting interleavings of the operations\' atomic steps on the reference model (linearizability)')
+ENUM_TECH = ('bounded exhaustive exploration of a term / input space against a reference model: every term (matcher expression, element list, parameter-mode vector, printed type) up to the stated '
+             'size x every value of a small domain is executed on the real library and compared with a denotational reference evaluator; nothing is sampled')
+COMP_TECH = ('explicit-state exploration of the clause typestate automaton (the model, read off the documented static_asserts) with every model trace replayed on the implementation: each clause '
+             'sequence up to the length bound is compiled by g++ and clang++ against the real headers and the outcome / diagnostic compared with the automaton')
+
+CHECKS.update({
+    'C09': dict(engine='enum', tech=ENUM_TECH, sec='4 C09', note='Trusted: the instrumented argument type (copy/move counters), g++ 12 -O0. 4399 checks over 1099 generated mock functions; C++14 macro set only.',
+                text='One generated mock function per (arity 0..15, probed position, passing mode {int, T&, const T&, T&&, T*, by value, move-only by value, move-only &&}) plus const / overloaded / IMPLEMENT_MOCKn kinds on the first and last position; WITH, SIDE_EFFECT, RETURN and THROW each reference _p: address identity, caller-visible writes, copy/move counts, positional values of all other parameters; locals modified between creation and call for every clause kind ([=] vs [&]).'),
+    'C10': dict(engine='enum', tech=ENUM_TECH, sec='4 C10', note='Trusted: the 40-line reference evaluator over the term syntax; value domain {-1..3}; term depth <= 2; sanitizer build.',
+                text='Every matcher term up to depth 2 over the leaves (_, ANY, eq/ne/lt/le/gt/ge duck-typed and typed, plain values), !m, *m on raw/unique/shared pointers incl. null, any_of/all_of/none_of with 1-3 operands, MEMBER_IS; every operand and argument value in {-1..3}; strings incl. empty, 9 regular expressions x 8 subjects incl. null; operand lvalues reused across matchers; a slice through real mock calls.'),
+    'C11': dict(engine='enum', tech=ENUM_TECH, sec='4 C11', note='Trusted: the reference predicates (injective assignment by brute force; first-fit with either removal discipline for overlapping matchers).',
+                text='Every range over {1,2,3} up to length 4 (quick) / 5 (thorough) x every element list up to length 3 / 4 x the 8 range matchers x variadic and collection flavour x element families (plain values, eq, all_of(ge,le), overlapping gt) x containers (vector, list, deque, array, C array, initializer_list); all documented call forms must compile (both compilers).'),
+    'C12': dict(engine='schedmc', tech=SCHED_TECH, sec='4 C12', note='Trusted: the scheduler (engines/schedmc/sched.c, uninstrumented, raw futex), ThreadSanitizer of clang 14 as the race oracle, the reference model with the atomic steps of appendix B. Scheduling granularity = outermost acquisitions of the library lock; sequentially consistent interleavings only.',
+                text='All 2x1 programs over 18 operations, 2x2 programs over the sequence-touching operations (quick) / 15 operations (thorough) and 3x1 programs (thorough): every schedule at critical-section granularity, no preemption bound needed; TSan race reports, deadlock, crash (TSan and ASan+UBSan builds) and linearizability of all results.'),
+    'C18': dict(engine='enum', tech=ENUM_TECH, sec='4 C18', note='Trusted: the reference formatter; libstdc++ stream semantics; sanitizer build (a null dereference is a crash of the harness, reported as a violation).',
+                text='Type family (opaque structs of 1..40 bytes x 3 byte patterns, integers of four widths, bool, char, strings, raw/smart/function pointers incl. null, null-comparable classes, printer<T> types, pairs, tuples of 0-3, vector/list/deque/set/map nested to depth 3 with nulls and custom printers at every depth) x all 81 prior stream states for leaves (27 for structures); texts of a trace record and of reports with null arguments.'),
+    'C19': dict(engine='compmc', tech=COMP_TECH, sec='4 C19, appendix D', note='Trusted: the automaton as the reading of the documented diagnostics; g++ 12 and clang++ 14 with libstdc++. Clause sequences up to length 2 (quick) / 3 (thorough).',
+                text='All clause sequences up to the length bound over {WITH, SIDE_EFFECT, RETURN, THROW, TIMES(2), TIMES(0), TIMES(AT_MOST(2)), RT_TIMES, IN_SEQUENCE, CO_RETURN, CO_THROW, CO_YIELD} x signature kinds {void, value, reference, coroutine<int>, coroutine<void>} x {REQUIRE, ALLOW, FORBID}_CALL and NAMED_ forms x C++14/17/20 x g++/clang++; the 68 shipped negative programs with their own pass rules; parameter indices beyond the arity in every clause kind; legal clause orders; the macro namespace of every header under TROMPELOEIL_LONG_MACROS.'),
+})
+
 PENDING = {
     'C09': 'check under construction in this build round (engine E3 enum, DESIGN.md section 4 C09); not claimed until it runs',
     'C10': 'check under construction in this build round (engine E3 enum, DESIGN.md section 4 C10); not claimed until it runs',
@@ -40,6 +63,9 @@ PENDING = {
 
 ENGINES = {
     'histmc': dict(name='histmc', path='engines/histmc', kind_free_text='explicit-state model checker over a C++ reference model with conformance replay of every trace on the real headers (DESIGN.md 3.2)'),
+    'schedmc': dict(name='schedmc', path='engines/schedmc', kind_free_text='stateless schedule explorer over hooked lock acquisitions (library customisation point), TSan per schedule, linearizability against the reference model (DESIGN.md 3.3)'),
+    'enum': dict(name='enum', path='engines/enum', kind_free_text='exhaustive term x value enumeration against denotational reference evaluators (DESIGN.md 3.4)'),
+    'compmc': dict(name='compmc', path='engines/compmc', kind_free_text='clause typestate automaton explored through the compilers (DESIGN.md 3.5)'),
 }
 
 
